@@ -456,7 +456,10 @@ type renamePlan struct {
 	funcs  map[string]*funcXform        // by current key
 	fields map[string]map[string]string // dir|Type (current type name) -> current field -> pinned field
 	decls  map[string]string            // dir|current name -> pinned name
-	notes  []string
+	// types of the tree that are not in the pinned tree (dir|name): a local declared with such an
+	// interface type and initialised once from a concrete value is analysed with the concrete type
+	newTypes map[string]bool
+	notes    []string
 }
 
 func dirOfKey(k string) string { return k[:strings.Index(k, "|")] }
@@ -831,12 +834,20 @@ func planRenames(base, cur *nameDB) *renamePlan {
 		pl.funcs[c.Key] = x
 		pl.notes = append(pl.notes, fmt.Sprintf("function %s is analysed as the method %s of the pinned tree (same name, the receiver is now a parameter)", strings.ReplaceAll(c.Key, "|", " "), strings.ReplaceAll(b.Key, "|", " ")))
 	}
+	pl.newTypes = map[string]bool{}
+	for k, d := range cd {
+		if _, ok := bd[k]; !ok && d.Kind == "type" && strings.HasPrefix(d.Typ, "interface") {
+			if _, renamed := pl.decls[k]; !renamed {
+				pl.newTypes[k] = true
+			}
+		}
+	}
 	sort.Strings(pl.notes)
 	return pl
 }
 
 func (pl *renamePlan) empty() bool {
-	return pl == nil || len(pl.funcs) == 0 && len(pl.fields) == 0 && len(pl.decls) == 0
+	return pl == nil || len(pl.funcs) == 0 && len(pl.fields) == 0 && len(pl.decls) == 0 && len(pl.newTypes) == 0
 }
 
 // computeRenamePlan compares the tree with the pinned record; nil when there is nothing to do.
@@ -1141,7 +1152,7 @@ func buildNameOverlay(dir, root string, pl *renamePlan, patterns ...string) (ov 
 			}
 		}
 	}
-	if len(nn.ren) == 0 {
+	if len(nn.ren) == 0 && len(pl.newTypes) == 0 {
 		return nil, nil
 	}
 	// a transformed function must only be used as the function of a call, with movable arguments
@@ -1195,6 +1206,7 @@ func buildNameOverlay(dir, root string, pl *renamePlan, patterns ...string) (ov 
 		}
 	}
 	overlay := map[string][]byte{}
+	var devirt []string
 	sort.Slice(files, func(i, j int) bool { return files[i].name < files[j].name })
 	for _, f := range files {
 		info := nn.info[f.file]
@@ -1226,6 +1238,12 @@ func buildNameOverlay(dir, root string, pl *renamePlan, patterns ...string) (ov 
 				subs = append(subs, nn.subsIn(f, fd.Body, false)...)
 			}
 		}
+		if len(pl.newTypes) > 0 {
+			rel, _ := filepath.Rel(root, filepath.Dir(f.name))
+			ds, dn := devirtLocals(f, info, filepath.ToSlash(rel), pl.newTypes)
+			subs = append(subs, ds...)
+			devirt = append(devirt, dn...)
+		}
 		if len(subs) == 0 {
 			continue
 		}
@@ -1245,9 +1263,90 @@ func buildNameOverlay(dir, root string, pl *renamePlan, patterns ...string) (ov 
 		}
 		return nil, nil
 	}
-	notes = append(notes, "name normalisation: "+strings.Join(pl.notes, "; "))
+	if len(pl.notes) > 0 {
+		notes = append(notes, "name normalisation: "+strings.Join(pl.notes, "; "))
+	}
+	if len(devirt) > 0 {
+		sort.Strings(devirt)
+		notes = append(notes, "name normalisation: locals declared with an interface type that is not in the pinned tree and initialised once from a concrete value are analysed with the concrete type: "+strings.Join(devirt, ", "))
+	}
 	if len(bads) > 0 {
 		notes = append(notes, "name normalisation: left as written: "+strings.Join(bads, ", "))
 	}
 	return overlay, notes
+}
+
+// devirtLocals: `var w I = T(x)` in a function body, with I an interface type that the pinned tree
+// does not have, w never assigned again and never address-taken: the declaration is rewritten to
+// `var w = T(x)`, so that the calls through w are the static calls they always resolve to (and the
+// new methods of T can be expanded like any other new helper).
+func devirtLocals(f *ilFile, info *types.Info, dir string, newTypes map[string]bool) (subs []sub, names []string) {
+	for _, dd := range f.file.Decls {
+		fd, ok := dd.(*ast.FuncDecl)
+		if !ok || fd.Body == nil {
+			continue
+		}
+		reassigned := map[types.Object]bool{}
+		ast.Inspect(fd.Body, func(n ast.Node) bool {
+			switch x := n.(type) {
+			case *ast.AssignStmt:
+				if x.Tok != token.DEFINE {
+					for _, l := range x.Lhs {
+						if id, ok := ast.Unparen(l).(*ast.Ident); ok {
+							if o := info.Uses[id]; o != nil {
+								reassigned[o] = true
+							}
+						}
+					}
+				}
+			case *ast.UnaryExpr:
+				if x.Op == token.AND {
+					if id, ok := ast.Unparen(x.X).(*ast.Ident); ok {
+						if o := info.Uses[id]; o != nil {
+							reassigned[o] = true
+						}
+					}
+				}
+			case *ast.IncDecStmt:
+				if id, ok := ast.Unparen(x.X).(*ast.Ident); ok {
+					if o := info.Uses[id]; o != nil {
+						reassigned[o] = true
+					}
+				}
+			}
+			return true
+		})
+		ast.Inspect(fd.Body, func(n ast.Node) bool {
+			ds, ok := n.(*ast.DeclStmt)
+			if !ok {
+				return true
+			}
+			gd, ok := ds.Decl.(*ast.GenDecl)
+			if !ok || gd.Tok != token.VAR {
+				return true
+			}
+			for _, sp := range gd.Specs {
+				vs, ok := sp.(*ast.ValueSpec)
+				if !ok || vs.Type == nil || len(vs.Names) != 1 || len(vs.Values) != 1 {
+					continue
+				}
+				nt, ok := info.TypeOf(vs.Type).(*types.Named)
+				if !ok || nt.Obj().Pkg() == nil || !types.IsInterface(nt) || !newTypes[dir+"|"+nt.Obj().Name()] {
+					continue
+				}
+				vt := info.TypeOf(vs.Values[0])
+				if vt == nil || types.IsInterface(vt) {
+					continue
+				}
+				obj := info.Defs[vs.Names[0]]
+				if obj == nil || reassigned[obj] {
+					continue
+				}
+				subs = append(subs, sub{f.off(vs.Names[0].End()), f.off(vs.Type.End()), ""})
+				names = append(names, fd.Name.Name+"."+vs.Names[0].Name)
+			}
+			return true
+		})
+	}
+	return subs, names
 }
